@@ -65,6 +65,9 @@ def one_job(args):
     out = dict(case=case, viol=None, runs=0, cuts=0, compared=0, key=None, sample=None)
     big = (not every) and rng.random() < 0.3
     s = make_stream(rng, big)
+    if list(MODES)[case % 5].startswith("check") and s.pkts[0] and len(s.pkts[0]) > 1:
+        # check modes: always some finding early in the stream, so that findings about complete packets exist for nearly every cut
+        s.pkts[0][1].f["bc"] = 0xFFF
     data = s.serialize()
     if every and len(data) > 12000:
         s = gen.generate(rng.getrandbits(40), n_links=1, hbfs=1, hits="none", max_triggers=1, max_pages=1)
